@@ -23,7 +23,7 @@ class C09(EngineProp):
     def cases(self, rng, tier):
         from harness import sources
         out = super().cases(rng, tier)
-        n = 300 if tier == 'quick' else 8000
+        n = 600 if tier == 'quick' else 8000
         for _ in range(n):
             kind = rng.choice(sources.KINDS)
             steps = []
